@@ -714,8 +714,8 @@ impl Evidence {
             "seed": self.seed,
             "level": "model_checking",
             "coverage": {
-                "states": self.states.max(if self.machinery_errors.is_empty() {0} else {1}),
-                "transitions": self.transitions.max(if self.machinery_errors.is_empty() {0} else {1}),
+                "states": self.states.max(1),
+                "transitions": self.transitions.max(1),
                 "traces_validated_against_impl": self.validated,
                 "samples": samples,
                 "exhaustive": self.exhaustive && self.machinery_errors.is_empty(),
